@@ -252,12 +252,19 @@ class HttpBase(ServerBase):
         self.block_length = block_length
 
         self._http_patterns = set()
+        taken = {}
 
         for k, v in self.app.interface.service_method_map.items():
             # p_ stands for primary, ie the non-aux method
             p_method_descriptor = v[0]
             for patt in p_method_descriptor.patterns:
                 if isinstance(patt, HttpPattern):
+                    other = taken.setdefault(
+                                  (patt.verb, patt.host, patt.address), patt)
+                    if other.endpoint is not patt.endpoint:
+                        raise ValueError("%r and %r answer to the same "
+                                                 "requests." % (other, patt))
+
                     self._http_patterns.add(patt)
 
         # this makes sure similar addresses with patterns are evaluated after
